@@ -87,6 +87,7 @@ type connState struct {
 	inflight int // deadline calls that have not returned yet
 	nZero    int // calls that cleared the write deadline
 	nDone    int // Writes that have completed
+	opBase   int // nDone when the current operation began
 }
 
 func (cs *connState) setGate(g chan struct{}) {
